@@ -216,6 +216,8 @@ def check_kernel(idx):
         cap = k.timeout or _G["cap"]
         feasible = 0
         for pi, (pc, outs) in enumerate(paths):
+            if os.environ.get("VERIF_E2_PATH") and int(os.environ["VERIF_E2_PATH"]) != pi:      # development aid
+                continue
             h = enc.Z3H()
             xs = [z3.Real(f"x{i}") for i in range(k.nin)]
             e = enc.REnc(h, xs)
